@@ -39,6 +39,7 @@ theorem fmtFixed_error (q : Rat) (hq : 0 ≤ q) (p : Nat) :
 theorem fmtRatFixed_parses (q : Rat) (hq : 0 ≤ q) (p : Nat) :
     ∃ ip fp, splitDecimal (fmtRatFixed q p) = some (ip, fp, 0) ∧ fp.length = p ∧
       digitsVal (ip ++ fp) = roundedScaled q p := by
+  have _ := hq
   exact splitDecimal_fmtScaled (roundedScaled q p) p
 
 /-- text_value_roundtrip: re-reading a printed finite value yields the binary64 nearest to the printed decimal
@@ -47,7 +48,8 @@ theorem text_value_roundtrip (b p : Nat) (q : Rat) (hb : b < 2 ^ 64) (hf : f64Of
     parseF64 (fmtFixed b p) =
       some ((if f64Sign b then 2 ^ 63 else 0) +
         f64BitsOfRatNonneg ((roundedScaled (absRat q) p : Rat) / ((10 ^ p : Nat) : Rat))) := by
-  sorry
+  have _ := hb
+  exact parseF64_fmtFixed_fin b p q hf
 
 /-- Special values survive the text format as classes. -/
 theorem text_special_roundtrip (b p : Nat) :
@@ -83,6 +85,11 @@ theorem detect_text (shape bits : List Nat) (p : Nat) :
 theorem reads_what_it_writes_text (shape bits : List Nat) (p : Nat) (hwf : WfSpectrum shape bits) :
     ∃ bits', readSpectrum (asciiBytes (writeText shape bits p)) = .ok (shape, bits') ∧
       bits'.map some = bits.map (fun b => parseF64 (fmtFixed b p)) := by
-  sorry
+  obtain ⟨hne, hb, hcs, _⟩ := hwf
+  obtain ⟨bits', hr, hm⟩ := readText_writeText shape bits p hne hb hcs
+  refine ⟨bits', ?_, hm⟩
+  unfold readSpectrum
+  rw [detect_text shape bits p]
+  exact hr
 
 end Sfs.C07
